@@ -63,7 +63,7 @@ def sentinel_empty():
         np.empty, np.empty_like = oe, oel
 
 
-def run_fake(carrier, tout, ret_dyn=1.0, fbh=None, bh=None):
+def run_fake(carrier, tout, ret_dyn=1.0, fbh=None, bh=None, kick_rfac=None):
     emf, masses, *_ = U.mods()
     obj = copy.copy(carrier)
     if fbh is not None:
@@ -71,7 +71,7 @@ def run_fake(carrier, tout, ret_dyn=1.0, fbh=None, bh=None):
         obj._fBH_target = np.array(fbh, dtype=float)
         obj.strict_BH_target = False
     obj.BH_ret_dyn = ret_dyn
-    obj.natal_kicks = False
+    obj.natal_kicks = kick_rfac is not None
     obj.tout = np.atleast_1d(np.array(tout, dtype=float))
     t_end = np.max(obj.tout)
     obj.t = np.sort(np.r_[obj.tms_u[obj.tms_u < t_end], obj.tout])
@@ -90,11 +90,18 @@ def run_fake(carrier, tout, ret_dyn=1.0, fbh=None, bh=None):
             Nr.BH[:] = bh[1]
             Mr.BH[:] = bh[0]
         return y
+    def fake_kicks(Mr_BH, Nr_BH, **kw):
+        ej = 0.0
+        for j in range(Mr_BH.size):
+            ej += Mr_BH[j] * (1 - kick_rfac[j])
+            Mr_BH[j] *= kick_rfac[j]
+            Nr_BH[j] *= kick_rfac[j]
+        return Mr_BH, Nr_BH, ej
     old = emf.ode
     emf.ode = cls
     mb.initial_values = init
     try:
-        with sentinel_empty(), warnings.catch_warnings():
+        with sentinel_empty(), warnings.catch_warnings(), U.patched(emf.kicks, "natal_kicks", fake_kicks):
             warnings.simplefilter("ignore")
             obj._evolve()
     finally:
@@ -132,11 +139,13 @@ def run(chk):
         mode = rng.choice(["std", "std", "fbh"])
         ret = rng.choice([1.0, 0.5, 0.9, 0.3])
         fbh = [rng.choice([0.0, 0.001, 0.01, 0.9]) for _ in tout] if mode == "fbh" else None
-        case = dict(car=k % len(cars), tout=tout, mode=mode, ret_dyn=ret, fbh=fbh, M=M, N=N)
+        # natal kicks (stub retention factors close to 1, so that the ejection budget is not exceeded)
+        rfk = [1 - 0.1 * rng.random() for _ in range(nbh)] if (rng.random() < 0.3 and (mode == "fbh" or ret <= 0.5)) else None
+        case = dict(car=k % len(cars), tout=tout, mode=mode, ret_dyn=ret, fbh=fbh, M=M, N=N, kick_rfac=rfk)
         chk.note_distinct(case)
         chk.count("schedule length %d" % len(tout))
         try:
-            obj, log = run_fake(car, tout, ret, fbh, (M, N))
+            obj, log = run_fake(car, tout, ret, fbh, (M, N), rfk)
         except ValueError as e:
             chk.notes.append("schedule run raised ValueError (%s)" % str(e)[:60])
             continue
@@ -160,7 +169,7 @@ def run(chk):
                 continue
             if not C.same_float(markers[i], t) and not (t == 0 and markers[i] != SENT):
                 chk.fail("row i corresponds to the i-th requested age", case, dict(row=i, requested=t, solver_age=markers[i]))
-            alone, _ = run_fake(car, [t], ret, [fbh[i]] if fbh else None, (M, N))
+            alone, _ = run_fake(car, [t], ret, [fbh[i]] if fbh else None, (M, N), rfk)
             for nm in ("Ns", "alpha", "Ms"):
                 a, b = getattr(obj, nm)[i], getattr(alone, nm)[0]
                 if not C.all_same(list(a), list(b)):
@@ -204,6 +213,8 @@ def run(chk):
         rng.shuffle(tout)
         kw = dict(m_breaks=[0.1, 0.5, 1.0, 100], a_slopes=[-0.5, -1.3, -2.5], nbins=[5, 5, 20], FeH=-1.0, esc_rate=rng.choice([0, -20.0]),
                   N0=5e5, BH_ret_dyn=rng.choice([0.5, 0.8]))
+        if rng.random() < 0.5:
+            kw.update(natal_kicks=True, vesc=rng.choice([90, 200]), BH_ret_dyn=0.3)
         full = emf.EvolvedMF.from_powerlaw(tout=tout, **kw)
         for i, t in enumerate(tout):
             one = emf.EvolvedMF.from_powerlaw(tout=[t], **kw)
